@@ -8,7 +8,7 @@ import tempfile
 import xml.etree.ElementTree as ET
 
 
-def run(repo="/repo"):
+def run(repo="/repo", paths=None):
     base = json.load(open("/root/.vp/BASELINE.json"))
     stable = set(base["stable_pass"])
     fd, x = tempfile.mkstemp(suffix=".xml")
@@ -16,7 +16,7 @@ def run(repo="/repo"):
     env = {k: v for k, v in os.environ.items() if k != "GRAPHIQ_VERIF"}
     env["MPLBACKEND"] = "Agg"
     subprocess.run(f"cd {repo} && /venv/bin/python -m pytest -ra -q -p no:cacheprovider --timeout=900 "
-                   f"--continue-on-collection-errors --junitxml={x}", shell=True, env=env,
+                   f"--continue-on-collection-errors --junitxml={x} {' '.join(paths or [])}", shell=True, env=env,
                    stdout=subprocess.DEVNULL, stderr=subprocess.DEVNULL, timeout=7200)
     passed = set()
     for tc in ET.parse(x).getroot().iter("testcase"):
@@ -24,6 +24,10 @@ def run(repo="/repo"):
             passed.add(f"{tc.get('classname')}::{tc.get('name')}")
     os.unlink(x)
     ids = {s for s in stable}
+    if paths:
+        # only the stable tests that live under the selected paths were run
+        mods = [p_.rstrip("/").replace("/", ".").replace(".py", "") for p_ in paths]
+        ids = {s for s in ids if any(s.startswith(m + ".") or s.startswith(m + "::") for m in mods)}
     # BASELINE ids may be in 'file::name' or 'classname::name' form; compare on the (module tail, name) pair
     def norm(s):
         a, _, b = s.rpartition("::")
